@@ -4,11 +4,12 @@ import (
 	"crypto/sha256"
 	"encoding/json"
 	"fmt"
+	"math/rand"
 	"os"
-	"runtime"
 	"sort"
 	"strconv"
 	"strings"
+	"sync/atomic"
 	"testing"
 	"testing/synctest"
 	"time"
@@ -134,18 +135,9 @@ func (x *X) Monitor(prop string, fn func()) {
 	}
 }
 
-func runOnce(t *testing.T, sc *Scenario, prefix []int, expect []Point, branchFrom int, startCost int, visit func(string, int) bool, verbose bool) execResult {
+func runOnce(t *testing.T, sc *Scenario, prefix []int, expect []Point, branchFrom int, onStuck func(execResult), visit func(string, int) bool, verbose bool) execResult {
 	var res execResult
 	defer func() {
-		// synctest.Test panics when goroutines stay blocked forever
-		// (natively dead-locked threads); the violation has been
-		// recorded already.
-		if r := recover(); r != nil {
-			if res.violation == nil && res.diverged == "" {
-				panic(r)
-			}
-			res.stuckLeak = true
-		}
 		verifsync.H = nil
 	}()
 	synctest.Test(t, func(t *testing.T) {
@@ -193,34 +185,15 @@ func runOnce(t *testing.T, sc *Scenario, prefix []int, expect []Point, branchFro
 		res.outcome = strings.Join(x.outcome, ";")
 		res.diverged = x.diverged
 		res.log = x.log
-		x.cleanup()
+		if x.deadlock || x.horizon {
+			// Threads are parked or blocked for good: the bubble
+			// cannot be left in an orderly way (aborting them would
+			// run deferred unlocks of locks they never got). The
+			// worker process reports and exits.
+			onStuck(res)
+		}
 	})
 	return res
-}
-
-// cleanup aborts every parked thread so that the bubble can end.
-func (x *X) cleanup() {
-	for i := 0; i < 1000; i++ {
-		synctest.Wait()
-		x.mu.Lock()
-		var parked []*Thread
-		for _, t := range x.threads {
-			if !t.done && t.pend != nil {
-				parked = append(parked, t)
-			}
-		}
-		x.mu.Unlock()
-		if len(parked) == 0 {
-			return
-		}
-		for _, t := range parked {
-			x.mu.Lock()
-			t.abort = true
-			t.pend = nil
-			x.mu.Unlock()
-			t.park <- 0
-		}
-	}
 }
 
 func hashKey(s string) [16]byte {
@@ -236,8 +209,10 @@ type workItem struct {
 	cost   int
 }
 
-// Explore enumerates all executions of a scenario within the bound.
-func Explore(t *testing.T, sc *Scenario, opt Options) *Result {
+// Explore enumerates all executions of a scenario within the bound. flush
+// is called with the (partial) result right before the process has to exit
+// because an execution ended in a deadlock that cannot be unwound.
+func Explore(t *testing.T, sc *Scenario, opt Options, flush func(*Result)) *Result {
 	start := time.Now()
 	res := &Result{Scenario: sc.Name, Property: opt.Prop, Engine: "A", Bound: opt.Bound, Exhaustive: true,
 		Shard: fmt.Sprintf("%d/%d", opt.Shard, max(opt.Shards, 1))}
@@ -256,35 +231,17 @@ func Explore(t *testing.T, sc *Scenario, opt Options) *Result {
 		visited[k] = rem
 		return true
 	}
-	stack := []workItem{{}}
-	rootDone := false
-	for len(stack) > 0 {
-		if opt.MaxExecs > 0 && res.Executions >= opt.MaxExecs {
-			res.Exhaustive = false
-			res.CapsHit = append(res.CapsHit, fmt.Sprintf("max_execs=%d", opt.MaxExecs))
-			break
+	finalize := func() {
+		res.States = len(visited)
+		if res.States == 0 {
+			res.States = int(res.Executions)
 		}
-		if opt.TimeLimit > 0 && time.Since(start) > opt.TimeLimit {
-			res.Exhaustive = false
-			res.CapsHit = append(res.CapsHit, fmt.Sprintf("time_limit=%s", opt.TimeLimit))
-			break
-		}
-		w := stack[len(stack)-1]
-		stack = stack[:len(stack)-1]
-		var r execResult
-		for attempt := 0; ; attempt++ {
-			r = runOnce(t, sc, w.prefix, w.expect, len(w.prefix), 0, visit, false)
-			if r.diverged == "" {
-				break
-			}
-			res.NondeterministicReplays++
-			if attempt >= 3 {
-				res.EngineError = "replay diverged 4 times: " + r.diverged + " prefix=" + fmt.Sprint(w.prefix)
-				res.Exhaustive = false
-				res.WallS = time.Since(start).Seconds()
-				return res
-			}
-		}
+		res.DistinctOutcomes = len(outcomes)
+		res.WallS = time.Since(start).Seconds()
+	}
+	// account folds one execution into the result; it returns false if the
+	// exploration must stop.
+	account := func(r execResult) bool {
 		res.Executions++
 		res.Transitions += int64(len(r.trace))
 		if len(r.trace) > res.MaxDepth {
@@ -325,21 +282,81 @@ func Explore(t *testing.T, sc *Scenario, opt Options) *Result {
 					// the check fails anyway.
 					res.Exhaustive = false
 					res.CapsHit = append(res.CapsHit, "stopped_at_first_violation")
-					break
+					return false
 				}
 			}
 		}
-		if r.stuckLeak {
-			// Natively blocked goroutines leaked from the bubble.
-			// Harmless for correctness, but bound the damage.
-			if runtime.NumGoroutine() > 10000 {
+		return true
+	}
+	onStuck := func(r execResult) {
+		if r.diverged != "" {
+			res.EngineError = "replay diverged into a stuck execution: " + r.diverged
+		}
+		account(r)
+		res.Exhaustive = false
+		res.CapsHit = append(res.CapsHit, "worker_ended_by_stuck_execution(deadlock_or_horizon)")
+		finalize()
+		flush(res)
+		os.Exit(0)
+	}
+	// Watchdog: a real hang (e.g. a thread blocked on an un-shimmed
+	// mutex held by a parked thread) is an engine error, not a verdict.
+	var lastStart atomic.Int64
+	var curPrefix atomic.Value
+	lastStart.Store(time.Now().UnixNano())
+	stopDog := make(chan struct{})
+	defer close(stopDog)
+	go func() {
+		for {
+			select {
+			case <-stopDog:
+				return
+			case <-time.After(5 * time.Second):
+			}
+			if time.Since(time.Unix(0, lastStart.Load())) > 120*time.Second {
+				res.EngineError = fmt.Sprintf("execution hung for 120s (un-shimmed lock held across a scheduling point?) prefix=%v", curPrefix.Load())
 				res.Exhaustive = false
-				res.CapsHit = append(res.CapsHit, "goroutine_leak_cap")
-				break
+				finalize()
+				flush(res)
+				os.Exit(0)
 			}
 		}
-		// Expand alternatives beyond the prefix, deepest first so that
-		// the DFS stays close to the current execution.
+	}()
+	stack := []workItem{{}}
+	rootDone := false
+	for len(stack) > 0 {
+		if opt.MaxExecs > 0 && res.Executions >= opt.MaxExecs {
+			res.Exhaustive = false
+			res.CapsHit = append(res.CapsHit, fmt.Sprintf("max_execs=%d", opt.MaxExecs))
+			break
+		}
+		if opt.TimeLimit > 0 && time.Since(start) > opt.TimeLimit {
+			res.Exhaustive = false
+			res.CapsHit = append(res.CapsHit, fmt.Sprintf("time_limit=%s", opt.TimeLimit))
+			break
+		}
+		w := stack[len(stack)-1]
+		stack = stack[:len(stack)-1]
+		var r execResult
+		lastStart.Store(time.Now().UnixNano())
+		curPrefix.Store(append([]int(nil), w.prefix...))
+		for attempt := 0; ; attempt++ {
+			r = runOnce(t, sc, w.prefix, w.expect, len(w.prefix), onStuck, visit, false)
+			if r.diverged == "" {
+				break
+			}
+			res.NondeterministicReplays++
+			if attempt >= 3 {
+				res.EngineError = "replay diverged 4 times: " + r.diverged + " prefix=" + fmt.Sprint(w.prefix)
+				res.Exhaustive = false
+				finalize()
+				return res
+			}
+		}
+		if !account(r) {
+			break
+		}
+		// Expand alternatives beyond the prefix.
 		cost := 0
 		var children []workItem
 		for i, p := range r.trace {
@@ -381,18 +398,58 @@ func Explore(t *testing.T, sc *Scenario, opt Options) *Result {
 			stack = append(stack, children[i])
 		}
 	}
-	res.States = len(visited)
-	if res.States == 0 {
-		res.States = int(res.Executions)
-	}
-	res.DistinctOutcomes = len(outcomes)
-	res.WallS = time.Since(start).Seconds()
+	finalize()
 	return res
+}
+
+// FreeRun executes the scenario n times without the controlled scheduler
+// (threads run truly concurrently, choices and event order are random from
+// seed). Used by the separate -race pass; no oracle is evaluated.
+func FreeRun(t *testing.T, sc *Scenario, n int, seed int64) (runs, stuck int) {
+	for i := 0; i < n; i++ {
+		isStuck := false
+		func() {
+			defer func() {
+				if r := recover(); r != nil {
+					isStuck = true
+				}
+			}()
+			synctest.Test(t, func(t *testing.T) {
+				x := &X{
+					T: t, byG: map[int64]*Thread{}, locks: map[any]*lockState{},
+					maxSteps: 500, free: true, rng: rand.New(rand.NewSource(seed + int64(i))),
+				}
+				sc.Build(x)
+				x.run()
+				if x.deadlock || x.horizon {
+					isStuck = true
+				}
+			})
+		}()
+		runs++
+		if isStuck {
+			stuck++
+			if stuck > 20 {
+				return
+			}
+		}
+	}
+	return
 }
 
 // Replay runs one recorded schedule verbosely.
 func Replay(t *testing.T, sc *Scenario, choices []int) (execResult, []string) {
-	r := runOnce(t, sc, choices, nil, 1<<30, 0, nil, true)
+	r := runOnce(t, sc, choices, nil, 1<<30, func(r execResult) {
+		for _, l := range r.log {
+			fmt.Println(l)
+		}
+		if r.violation != nil {
+			fmt.Printf("REPLAY-VIOLATION %s: %s\n", r.violation.Fingerprint, r.violation.Message)
+		} else {
+			fmt.Println("REPLAY-STUCK (no violation recorded)")
+		}
+		os.Exit(0)
+	}, nil, true)
 	return r, r.log
 }
 
@@ -496,6 +553,15 @@ func Main(t *testing.T, scenarios []*Scenario, seqs []*Seq) {
 		}
 		t.Fatalf("scenario %q not found", rf.Scenario)
 	}
+	if n := envInt("MC_FREE", 0); n > 0 {
+		for _, s := range scenarios {
+			if s.Name == name || name == "" {
+				runs, stuck := FreeRun(t, s, n, int64(envInt("VERIF_SEED", 0)))
+				fmt.Printf("MC_FREE scenario=%s runs=%d stuck=%d\n", s.Name, runs, stuck)
+			}
+		}
+		return
+	}
 	var res *Result
 	for _, s := range scenarios {
 		if s.Name != name {
@@ -512,7 +578,7 @@ func Main(t *testing.T, scenarios []*Scenario, seqs []*Seq) {
 		if sh := os.Getenv("MC_SHARD"); sh != "" {
 			fmt.Sscanf(sh, "%d/%d", &opt.Shard, &opt.Shards)
 		}
-		res = Explore(t, s, opt)
+		res = Explore(t, s, opt, writeResult)
 	}
 	for _, s := range seqs {
 		if s.Name != name {
@@ -528,11 +594,15 @@ func Main(t *testing.T, scenarios []*Scenario, seqs []*Seq) {
 	if res == nil {
 		t.Fatalf("scenario %q not found", name)
 	}
+	writeResult(res)
+}
+
+func writeResult(res *Result) {
 	sort.Slice(res.Violations, func(i, j int) bool { return res.Violations[i].Fingerprint < res.Violations[j].Fingerprint })
 	b, _ := json.MarshalIndent(res, "", " ")
 	if out := os.Getenv("MC_OUT"); out != "" {
 		if err := os.WriteFile(out, b, 0o644); err != nil {
-			t.Fatal(err)
+			panic(err)
 		}
 	} else {
 		fmt.Println(string(b))
